@@ -4,6 +4,8 @@ from harness import common
 from harness.common import coq_list, coq_Z, coq_opt
 
 REQ = ["Verif.lib.PyLite", "Verif.gen.NegotiateGen", "Verif.lib.Negotiate", "Verif.gen.IdentityGen", "Verif.lib.Identity"]
+REQB = ["Verif.lib.PyLite", "Verif.gen.NegotiateGen", "Verif.lib.Negotiate", "Verif.lib.NegBytes", "Verif.gen.IdentityGen", "Verif.lib.NegSplit",
+        "Verif.lib.Identity", "Verif.lib.IdentityBytes", "Verif.lib.IdentityBytesRef"]
 CLAIMS = [None, "absent", "A", "B", "C", "empty", "garbage", "upper", "prefix", "ext", "long"]
 CERTS = ["none", "A", "B", "C"]
 CORPUS = os.path.join(common.VERIF, "corpus", "C05")
@@ -25,7 +27,14 @@ def run(ctx):
                 "result is judged by the per-reference oracle (connection key, leaf certificate, reference URL, object reached).  Crossed "
                 "connections = four Tubs: A has lookups pending to 2 or 3 Tubs (every order) on held links, 1 or 2 of them connect to A, "
                 "links finish in several orders and in random delivery-by-delivery interleavings; non-trivial = an inbound connection "
-                "was attached at A while >= 2 lookups were issued; table and per-reference oracles judged after every delivery")
+                "was attached at A while >= 2 lookups were issued; table and per-reference oracles judged after every delivery.  Byte scripts = a raw peer "
+                "sends BYTES from the first byte of the connection: every variant of the plaintext block (GET line / 101 answer: wrong verb, token "
+                "counts, other / empty / undecodable id, redirect configured, missing upgrade), then hello / decision / hybrid hello+decision / "
+                "error / junk / undecodable / over-long blocks (57 block kinds), all pairs of 9 core kinds, cut at arbitrary BYTE offsets; "
+                "non-trivial = at least 3 blocks or a non-standard plaintext block; phase, theirTubRef, attached keys and the exception class are "
+                "compared with the byte-level model after every chunk.  Reference histories = an authenticated peer sends sequences of "
+                "my-reference forms (short / long, URL absent / own / another Tub's / the receiver's / case-changed) for new and known clids; "
+                "all pairs on one clid plus random longer ones; every tracker and RemoteReference judged after every step")
     ctx.assumptions = [
         "TLS itself is replaced: startTLS is a no-op and the transport's handle is a fake OpenSSL connection object "
         "(get_peer_certificate / get_peer_cert_chain / get_verified_chain) describing what the peer presents: a leaf certificate plus "
@@ -33,12 +42,23 @@ def run(ctx):
         "not checked: the handshake proves possession of the LEAF certificate's key, and of nothing else the peer sends",
         "tubid_of (crypto.digest32 of the sha1 digest) is an uninterpreted function in the theorems; the oracle recomputes it "
         "independently (hashlib + base64) for the certificates used",
-        "the model covers Tubs with a certificate (myTubID is never None) and listeners without redirects",
-        "exception classes raised by handlePLAINTEXTClient (BananaError on a non-101 answer), by twisted for a missing peer certificate "
-        "(CertificateError) and on the error-block / timeout paths (RemoteNegotiationError, ConnectionDone, NegotiationError) are "
-        "hand-modelled and tied by the correspondence only",
-        "in the receive-loop model a block is one of: hello (parses, has a range), decision (acceptable or not), error block, junk; RPC "
-        "bytes between header blocks are exercised by the oracle only",
+        "the model covers Tubs with a certificate (myTubID is never None: Tub.setupEncryption always sets it).  Listeners WITH redirects are "
+        "inside the byte-level model: the redirect table is a universally quantified parameter and the redirect branch (sendRedirect "
+        "raises) is translated",
+        "byte-level receive loop (lib/IdentityBytes.v): translated = block splitter tests (header_verdict), phase dispatch, "
+        "handlePLAINTEXTServer / handlePLAINTEXTClient statement by statement incl. their exception classes, identity checks, attach key, "
+        "phase constants; hand-modelled and compared with the real Negotiation chunk by chunk = parseLines, the statement order inside "
+        "handleENCRYPTED / handleDECIDING, switchToBanana emptying the buffer; universally quantified parameters of the theorems (nothing "
+        "assumed) = UTF-8 decoding (six.ensure_str), every non-identity check before (pre_ok: range, version overlap, forced) and after "
+        "(post_ok: existing connection, vocabulary range) the identity checks, acceptDecision (decision_ok).  The correspondence runs a "
+        "concrete instance of these parameters (lib/IdentityBytesRef.v) that is valid for the generated bytes only: ASCII plus 0xFE/0xFF, "
+        "integers written with digits",
+        "exception classes on the certificate-less path (twisted's CertificateError), the error-block and timeout paths "
+        "(RemoteNegotiationError, ConnectionDone, NegotiationError of the session model) are hand-modelled and tied by the correspondence only",
+        "_test_options (debug_slow_* / debug_pause_* timers of Negotiation) are taken to be unset; bytes that arrive after switchToBanana go to "
+        "the Broker and are outside this property's model (oracle only)",
+        "`assert theirTubID` is not executed under python -O: C05_without_asserts states exactly what is then still guaranteed (only the "
+        "anonymous peer on a listener is additionally accepted, and only if crypto.peerFromTransport did not raise for the missing certificate)",
     ]
     ok, log = build(ctx, ["props/C05.vo"])
     from harness import c05_impl as impl
@@ -46,25 +66,31 @@ def run(ctx):
     with impl.quiet():
         cells = corpus(ctx, impl)
         cells += matrix(ctx, impl)
-    model_ok = ok
+    model_ok = bytes_ok = ok
     if not ok:
         model_ok, _ = build(ctx, ["lib/Identity.vo"])
+        bytes_ok, _ = build(ctx, ["lib/IdentityBytesRef.vo"])
     if model_ok:
         correspond_sessions(ctx, cells)
     with impl.quiet():
         malformed(ctx, impl)
         urls = inbound_urls(ctx, impl)
+        rhist = ref_histories(ctx, impl)
         gifts(ctx, impl)
         hist = histories(ctx, impl)
         scripts = keeps_sending(ctx, impl)
+        bscripts = bytes_scripts(ctx, impl)
         grs = getref_histories(ctx, impl)
         crs = crossed(ctx, impl)
     if model_ok:
         correspond_getrefs(ctx, grs)
         correspond_crossed(ctx, crs)
         correspond_urls(ctx, urls)
+        correspond_ref_histories(ctx, rhist)
         correspond_histories(ctx, hist)
         correspond_scripts(ctx, scripts)
+    if bytes_ok:
+        correspond_bytes(ctx, bscripts)
     if not ok and len(ctx.failures) == before:
         ctx.fail("proof-broken", "the Coq development for C05 no longer builds against the regenerated gen/IdentityGen.v "
                  "(theorem closure props/C05.vo):\n" + log[-2500:], replay=dict(log=log[-6000:]), has_input=False)
@@ -73,7 +99,8 @@ def run(ctx):
 
 
 MY_CLOSURE = ("gen/IdentityGen.v", "gen/NegotiateGen.v", "lib/PyLite.v", "lib/Negotiate.v", "lib/NegotiateProofs.v",
-              "lib/Identity.v", "lib/IdentityProofs.v", "props/C05.v")
+              "lib/Identity.v", "lib/IdentityProofs.v", "lib/NegBytes.v", "lib/NegSplit.v", "lib/IdentityBytes.v",
+              "lib/IdentityBytesProofs.v", "lib/IdentityBytesRef.v", "props/C05.v")
 
 
 def build(ctx, targets):
@@ -884,3 +911,280 @@ Definition answers (tid : Z -> list Z) (evs : list (tevent Z)) :=
                              replay=dict(history=g, model=[got, repr(m_ans)], impl=[want, repr(i_ans)]), has_input=False)
     ctx.extra["correspondence_crossed_histories"] = len(crs)
     ctx.extra["correspondence_crossed_disagreements"] = nbad
+
+
+# ---------------------------------------------------------------------------------------------- raw bytes from the first byte
+HELLOS = ["Hleaf", "Hx", "Habsent", "Hempty", "Hx_then_leaf", "Hleaf_then_x", "Hupper_key", "Hupper_val", "Hleaf_error", "Hleaf_range_low",
+          "Hleaf_range_none", "Hleaf_range_junk", "Hleaf_range_one", "Hleaf_norange", "Hleaf_forced", "Hleaf_notforced", "Hleaf_vocab_bad",
+          "Hleaf_vocab_default", "Hleaf_and_decision", "Hx_and_decision"]
+DECISIONS = ["D", "D2", "D99", "Dnover", "Dempty_ver", "Derror", "Dbadhash", "Dbadindex", "Dclaims_x"]
+OTHERS = ["E", "J", "Jff", "Jffval", "Jblank"]
+PLAIN = dict(Server=["GETA", "GETA_noupgrade", "GETC", "GETempty", "GET2tok", "GET4tok", "GETtabs", "GETlower", "GETindex", "GETff", "GETAupper",
+                     "POST", "Jblank", "J", "Hleaf", "R101"],
+             Client=["R101", "R101_noupgrade", "R101_noupgrade_ff", "R200", "R200ff", "R1tok", "Rblank", "R500", "J", "Hleaf", "GETA"])
+CORE = ["Hleaf", "Hx", "Hleaf_and_decision", "Hx_and_decision", "Hleaf_range_junk", "D", "D99", "E", "J"]
+# fixed witnesses (one per family of seeded change met so far), run first
+BYTE_WITNESSES = [
+    ("Server", "hi", "C", "B", [], ["GETA", "Hx", "D"], []),                     # decision accepted although the hello was rejected
+    ("Server", "lo", "C", "B", [], ["GETA", "Hx", "D"], []),
+    ("Client", "hi", "C", "B", [], ["R101", "Hleaf", "D"], []),                  # proven identity that is not the dialled Tub
+    ("Client", "lo", "C", "B", [], ["R101", "Hleaf", "D"], []),
+    ("Client", "lo", "C", "B", [], ["R101", "Hleaf", "Hx", "D"], []),
+    ("Server", "lo", "C", "B", [], ["GETA", "Hx_and_decision", "Hx_and_decision"], []),   # a block that is hello and decision at once
+    ("Client", "lo", "C", "B", [], ["R101", "Hleaf_and_decision", "Hleaf_and_decision"], []),
+    ("Server", "hi", "C", "B", [], ["GETA", "Hx_then_leaf"], []),                # which of two my-tub-id lines counts
+    ("Server", "hi", "C", "B", [], ["GETA", "Hleaf_then_x"], []),
+    ("Server", "hi", "C", "B", [], ["GETC", "Hleaf"], []),                       # hello sent although the GET was refused
+    ("Server", "hi", "C", "B", [], ["D", "Hleaf"], []),
+    ("Client", "hi", "C", "B", [], ["R200", "Hleaf", "D"], []),
+    ("Client", "hi", "C", "B", [], ["D"], []),                                   # decision in the plaintext phase
+    ("Server", "hi", "C", "B", [], ["GETC", "GETA", "Hleaf"], [], True),         # listener with a redirect for C
+]
+
+
+def bytes_scripts(ctx, impl):
+    """a raw peer sends BYTES from the first byte of the connection: the plaintext block (every variant), then hello / decision /
+    error / junk / over-long blocks of every kind, cut into chunks at arbitrary BYTE offsets, to a real Tub dialling or listening"""
+    r = ctx.rng
+    jobs = [tuple(w) + ((False,) if len(w) == 7 else ()) for w in BYTE_WITNESSES]
+    pres = [("C", "B"), ("B", "B")]
+    for role in ("Client", "Server"):
+        good = "GETA" if role == "Server" else "R101"
+        for a_pos in ("hi", "lo"):
+            for (leaf, x) in pres:
+                for h in HELLOS + OTHERS + DECISIONS:
+                    jobs.append((role, a_pos, leaf, x, [], [good, h, "D"], [], False))
+                for pl in PLAIN[role]:
+                    jobs.append((role, a_pos, leaf, x, [], [pl, good, "Hleaf", "D"], [], False))
+                    jobs.append((role, a_pos, leaf, x, [], [pl, "Hleaf", "D", good], [r.randrange(1, 60)], False))
+                for b1 in CORE:
+                    for b2 in CORE:
+                        jobs.append((role, a_pos, leaf, x, [], [good, b1, b2, "D"], [], False))
+                for tail in (["Long", "Hleaf", "D"], ["Pad4000", "Hleaf", "D"], ["Pad4000", "Hx", "D", "Hleaf"]):
+                    jobs.append((role, a_pos, leaf, x, [], [good] + tail, [r.randrange(1, 4300), r.randrange(1, 4300)], False))
+                jobs.append((role, a_pos, leaf, x, [], ["Long", good, "Hleaf"], [4095, 4096, 4100, 4101], False))
+        for a_pos in ("hi", "lo"):
+            jobs.append(("Server", a_pos, "C", "B", [], ["GETC"], [], True))
+            jobs.append(("Server", a_pos, "B", "B", [], ["GETC", "GETA", "Hleaf", "D"], [], True))
+    allb = HELLOS + DECISIONS + OTHERS
+    for i in range(ctx.n(300, 8000)):
+        role = r.choice(["Client", "Server"])
+        good = "GETA" if role == "Server" else "R101"
+        n = r.randint(2, 5)
+        names = [good if r.random() < 0.8 else r.choice(PLAIN[role])] + [r.choice(allb if r.random() < 0.9 else PLAIN[role]) for _ in range(n)]
+        cuts = [r.randrange(1, 150 * (n + 1)) for _ in range(r.randint(0, 6))]
+        leaf, x = r.choice(pres + [("C", "B")])
+        jobs.append((role, r.choice(["hi", "lo"]), leaf, x, r.choice([[], [], ["B"]]), names, cuts, r.random() < 0.1))
+    out = []
+    seen = set()
+    for job in jobs:
+        key = repr(job)
+        if key in seen:
+            continue
+        seen.add(key)
+        try:
+            t = impl.raw_bytes_trial(*job)
+        except Exception as e:
+            import traceback
+            ctx.fail("oracle/bytes/exception", "an exception escaped while a raw peer sent the blocks %r (cut at byte offsets %r) to Tub A as %s: %r"
+                     % (job[5], job[6], job[0], e), replay=dict(job=repr(job), tb=traceback.format_exc()))
+            continue
+        ctx.case(["bytes", list(job[:6]), t["cuts"], job[7]], nontrivial=len(job[5]) >= 3 or job[5][0] not in ("GETA", "R101"))
+        ctx.hist("bytes_blocks", len(job[5]))
+        ctx.hist("bytes_attached", len(t["attached"]))
+        for ob in t["obs"]:
+            ctx.hist("bytes_phase_after_chunk", ob[0])
+            ctx.hist("bytes_failure_after_chunk", ob[3] or "-")
+        for p in t["problems"][:2]:
+            ctx.fail("oracle/bytes/%s" % p[0], "%s; the raw peer authenticated as Tub %s (extra certificates: %s) and sent, from the first byte of the "
+                     "connection, the blocks %r cut into chunks of %r bytes to Tub A acting as %s (%s)%s"
+                     % (p[1], t["leaf"], t["extras"], t["names"], t["lens"], t["role"],
+                        "dialling Tub %s" % t["x"] if t["role"] == "Client" else "listener", ", listener has a redirect for C" if t["redirect_c"] else ""),
+                     replay=dict(script=t))
+        out.append(t)
+    if len(out) > 20:
+        ctx.sample(dict(kind="bytes", role=out[20]["role"], blocks=out[20]["names"], chunk_lengths=out[20]["lens"], observed=out[20]["obs"]))
+    return out
+
+
+def zbytes(data):
+    """bytes -> Gallina list Z; long runs of one byte are written as `repeat`"""
+    parts, i = [], 0
+    cur = []
+    while i < len(data):
+        j = i
+        while j < len(data) and data[j] == data[i]:
+            j += 1
+        if j - i >= 32:
+            if cur:
+                parts.append("[" + ";".join(cur) + "]%Z")
+                cur = []
+            parts.append("repeat %d%%Z (Z.to_nat %d%%Z)" % (data[i], j - i))
+        else:
+            cur += [str(c) for c in data[i:j]]
+        i = j
+    if cur or not parts:
+        parts.append("[" + ";".join(cur) + "]%Z")
+    return "(" + " ++ ".join(parts) + ")"
+
+
+def correspond_bytes(ctx, rows):
+    from harness import c05_impl as impl
+    from foolscap import vocab, negotiate as neg
+    if not rows:
+        return
+    N = neg.Negotiation
+    vmin, vmax = N.initialVocabTableRange
+    hashes = coq_list("(%d%%Z, %s)" % (i, zs(vocab.hashVocabTable(i))) for i in range(vmin, vmax + 1))
+    defs = []
+    allids = {}
+    for a_pos in ("hi", "lo"):
+        arr = impl.arrangement(a_pos)
+        ids = allids[a_pos] = {k: v[0] for k, v in arr.items()}
+        for k in "ABC":
+            defs.append("Definition id%s_%s : list Z := %s." % (k, a_pos, zs(arr[k][0])))
+        defs.append("Definition tid_%s : Z -> list Z := fun c => if (c =? 1)%%Z then idA_%s else if (c =? 2)%%Z then idB_%s "
+                    "else if (c =? 3)%%Z then idC_%s else []." % (a_pos, a_pos, a_pos, a_pos))
+    used = sorted({(t["a_pos"], t["leaf"], t["x"], n) for t in rows for n in t["names"]})
+    libs = {}
+    bname = {}          # (a_pos, leaf, x, block name) -> name of the Coq definition holding its bytes (equal contents are shared)
+    by_content = {}
+    for (a_pos, leaf, x, n) in used:
+        if (a_pos, leaf, x) not in libs:
+            libs[(a_pos, leaf, x)] = impl.byte_blocks(allids[a_pos], leaf, x)
+        data = libs[(a_pos, leaf, x)][n]
+        if data not in by_content:
+            by_content[data] = "blk%d" % len(by_content)
+            defs.append("Definition %s : list Z := %s." % (by_content[data], zbytes(data)))
+        bname[(a_pos, leaf, x, n)] = by_content[data]
+    defs = "\n".join(defs) + """
+Definition code (tid : Z -> list Z) (k : list Z) : Z :=
+  if list_eqb k (tid 1%Z) then 1%Z else if list_eqb k (tid 2%Z) then 2%Z else if list_eqb k (tid 3%Z) then 3%Z else 0%Z.
+Definition pc (p : rphase) : Z := match p with RPlaintext => 0%Z | RP PhEncrypted => 1%Z | RP PhDeciding => 2%Z | RP PhBanana => 3%Z | RP PhAbandoned => 4%Z end.
+Fixpoint cut (lens : list Z) (s : list Z) : list (list Z) :=
+  match lens with [] => [] | n :: r => firstn (Z.to_nat n) s :: cut r (skipn (Z.to_nat n) s) end.
+Definition hashes : list (Z * list Z) := """ + hashes + """.
+Fixpoint btrace (tid : Z -> list Z) (redir : list Z -> bool) (r : role) (tgt : list Z) (p : presented Z) (st : bstate) (chunks : list (list Z)) :=
+  match chunks with
+  | [] => []
+  | c :: cs => let st' := brecv_chunk Z tid ascii_decode ref_pre_ok (ref_post_ok %d %d) (ref_decision_ok %d %d hashes) redir r (tid 1%%Z) tgt p st c in
+               (pc (b_phase st'), match b_their st' with Some t => code tid t | None => (-1)%%Z end, map (code tid) (b_attached st'),
+                match b_fail st' with Some w => w | None => "-"%%string end) :: btrace tid redir r tgt p st' cs
+  end.
+""" % (vmin, vmax, vmin, vmax)
+
+    def term(t):
+        a = t["a_pos"]
+        stream = " ++ ".join(bname[(a, t["leaf"], t["x"], n)] for n in t["names"])
+        tgt = "id%s_%s" % (t["x"], a) if t["role"] == "Client" else "[]"
+        redir = "(fun i => list_eqb i idC_%s)" % a if t["redirect_c"] else "(fun _ => false)"
+        return "btrace tid_%s %s %s %s %s b_init (cut %s (%s))" % (a, redir, t["role"], tgt, pres(t["leaf"], t["extras"]),
+                                                                     coq_list("%d%%Z" % n for n in t["lens"]), stream)
+    pnum = dict(PhPlaintext=0, PhEncrypted=1, PhDeciding=2, PhBanana=3, PhAbandoned=4)
+    nbad = 0
+    for shard in range(0, len(rows), 600):
+        part = rows[shard:shard + 600]
+        body = defs + "Eval vm_compute in [" + ";\n ".join(term(t) for t in part) + "].\n"
+        try:
+            (vals,) = ctx.coq_eval("C05_bytes_%d" % (shard // 600), body, requires=REQB)
+        except common.CoqEvalError as e:
+            ctx.fail("correspondence-broken", "the C05 byte-level receive-loop model could not be evaluated: " + str(e)[-1500:], has_input=False)
+            return
+        for t, tr in zip(part, vals):
+            ids = allids[t["a_pos"]]
+            rev = {ids["A"]: 1, ids["B"]: 2, ids["C"]: 3}
+            ctx.traces += 1
+            want = [(pnum.get(ph, 9), -1 if th is None else rev.get(th, 0), [rev.get(k, 0) for k in reversed(att)], fl or "-") for (ph, th, att, fl) in t["obs"]]
+            got = [(a, b, list(c), d) for (a, b, c, d) in tr][:len(want)]     # chunks not delivered (connection already gone) are not compared
+
+            def same(w, g):
+                if w[:3] != g[:3]:
+                    return False
+                if g[3] == "?":
+                    return w[3] != "-"
+                if g[3] == "ValueError":
+                    return w[3] in ("ValueError", "UnicodeDecodeError")
+                return w[3] == g[3]
+            if len(got) != len(want) or not all(same(w, g) for w, g in zip(want, got)):
+                nbad += 1
+                if nbad <= 3:
+                    ctx.fail("correspondence/bytes", "Negotiation.dataReceived and its byte-level model differ (phase, theirTubRef, attached keys, last "
+                             "exception class after every chunk) for the blocks %r in chunks of %r bytes, victim %s, order %s, peer leaf %s extras %s%s: "
+                             "implementation %r, model %r" % (t["names"], t["lens"], t["role"], t["a_pos"], t["leaf"], t["extras"],
+                                                              ", redirect for C" if t["redirect_c"] else "", want, got),
+                             replay=dict(script=t, model=got, impl=want), has_input=False)
+    ctx.extra["correspondence_bytes_traces"] = len(rows)
+    ctx.extra["correspondence_bytes_disagreements"] = nbad
+
+
+# ---------------------------------------------------------------------------------------------- inbound references as histories
+REF_WITNESSES = [
+    ("hi", [(3, "long", None), (3, "long", "C")]),          # URL supplied later for a clid first sent without one
+    ("lo", [(3, "short", None), (3, "long", "C")]),
+    ("hi", [(3, "long", "B"), (3, "long", "C")]),           # URL replaced
+    ("hi", [(3, "long", "C"), (3, "long", None), (3, "long", "C")]),
+    ("lo", [(3, "long", None), (4, "long", "B"), (3, "long", "A")]),
+]
+
+
+def ref_histories(ctx, impl):
+    """an authenticated but dishonest peer sends HISTORIES of my-reference sequences (short / long form, with and without URL, URLs
+    naming itself, another Tub, the receiver; new and already known clids); judged after every step"""
+    import itertools as it
+    forms = [("short", None), ("long", None), ("long", "B"), ("long", "C"), ("long", "A"), ("long", "upper"), ("long", "B2")]
+    jobs = list(REF_WITNESSES)
+    for a_pos in ("hi", "lo"):
+        for f1 in forms:
+            for f2 in forms:
+                jobs.append((a_pos, [(3,) + f1, (3,) + f2]))
+    r = ctx.rng
+    for i in range(ctx.n(30, 1500)):
+        n = r.randint(3, 6)
+        jobs.append((r.choice(["hi", "lo"]), [(r.choice([3, 3, 4, -2]),) + r.choice(forms) for _ in range(n)]))
+    out = []
+    for (a_pos, steps) in jobs:
+        try:
+            h = impl.ref_history_trial(a_pos, steps)
+        except Exception as e:
+            import traceback
+            ctx.fail("oracle/inbound-url/exception", "exception escaped during the reference history %r: %r" % (steps, e),
+                     replay=dict(a_pos=a_pos, steps=steps, tb=traceback.format_exc()))
+            continue
+        ctx.case(["ref-history", a_pos, [list(s_) for s_ in steps]], nontrivial=len(steps) >= 2 and any(s_[2] not in (None, "B") for s_ in steps))
+        ctx.hist("ref_history_len", len(steps))
+        for p in h["problems"][:2]:
+            ctx.fail("oracle/inbound-url/%s" % p[0], "%s; Tub B (authenticated) sent Tub A the my-reference history %r "
+                     "(clid, form, tub named by the URL)" % (p[1], steps), replay=dict(history=h))
+        out.append(h)
+    if len(out) > 7:
+        ctx.sample(dict(kind="ref-history", steps=out[7]["steps"], tables=out[7]["tables"]))
+    return out
+
+
+def correspond_ref_histories(ctx, rows):
+    rows = [h for h in rows if h["tables"] and len(h["tables"]) == len(h["model_steps"])]
+    if not rows:
+        return
+    def step(m):
+        return "((%d)%%Z, %s)" % (m[0], "None" if m[1] is None else "Some %s" % zs(m[1]))
+    body = """Fixpoint rtrace (k : list Z) (t : rtab) (ms : list (Z * option (list Z))) : list rtab :=
+  match ms with [] => [] | m :: r => let t' := ref_step k t m in t' :: rtrace k t' r end.
+Eval vm_compute in [""" + ";\n ".join("rtrace %s [] %s" % (zs(h["key"]), coq_list(step(m) for m in h["model_steps"])) for h in rows) + "].\n"
+    try:
+        (vals,) = ctx.coq_eval("C05_refhist", body, requires=REQ)
+    except common.CoqEvalError as e:
+        ctx.fail("correspondence-broken", "the C05 reference-history model could not be evaluated: " + str(e)[-1500:], has_input=False)
+        return
+    nbad = 0
+    for h, tr in zip(rows, vals):
+        ctx.traces += 1
+        got = [sorted((c_, None if (u == "None" or u is None) else "".join(chr(x) for x in (u[1] if isinstance(u, tuple) else u))) for (c_, u) in tab) for tab in tr]
+        want = [[(c_, v) for (c_, v) in tab] for tab in h["tables"]]
+        if got != want:
+            nbad += 1
+            if nbad <= 3:
+                ctx.fail("correspondence/ref-history", "Broker.yourReferenceByCLID (clid -> tub named by the tracker's URL) and the model differ along "
+                         "the my-reference history %r: implementation %r, model %r" % (h["steps"], want, got),
+                         replay=dict(history=h, model=repr(got)), has_input=False)
+    ctx.extra["correspondence_ref_histories"] = len(rows)
+    ctx.extra["correspondence_ref_history_disagreements"] = nbad
